@@ -28,8 +28,11 @@ def main():
             else:
                 print(json.dumps(case, indent=1))
             return 0
+        import glob
+        for old in glob.glob(os.path.join(common.VERIF, 'replays', pid, '*.json')):
+            os.remove(old)
         gen_status = mod.regenerate(ctx) if hasattr(mod, 'regenerate') else None
-        build = common.build_props(ctx, mod.PROP_V)
+        build = common.build_props(ctx, mod.PROP_V, extra=getattr(mod, 'CORR_V', ()))
         try:
             out = mod.run(ctx, build)
         except Exception:
